@@ -28,7 +28,8 @@ func init() {
 			c.check(qname(w) == "core.WriteL1Head", "who-writes", "L1Height "+a.Op+" ← "+qname(w), p.Pos(a.Pos), "the accessor", "bucket L1Height is written by "+qname(w))
 			for _, s := range p.callersOf(w) {
 				cn := qname(rootOf(s.Fn))
-				ok := cn == "(*blockchain.Blockchain).SetL1Head" || strings.HasSuffix(pkgRelOf(s.Fn), "testutils") || strings.HasPrefix(pkgRelOf(s.Fn), "migration")
+				ok := cn == "(*blockchain.Blockchain).SetL1Head" || strings.HasSuffix(pkgRelOf(s.Fn), "testutils") || strings.HasPrefix(pkgRelOf(s.Fn), "migration") ||
+					(pkgRelOf(s.Fn) == "blockchain" && p.calledOnlyFrom(s.Fn, "SetL1Head", 0)) // a piece of SetL1Head
 				c.check(ok, "who-writes", "core.WriteL1Head ← "+cn, p.Pos(s.Pos()), "only Blockchain.SetL1Head", "the L1 head record is written from "+cn)
 			}
 		}
